@@ -7,6 +7,7 @@ DST=/verif/seeded/$NAME
 mkdir -p $DST
 cp $SRC/patch_$N.diff $DST/patch.diff
 for f in $SRC/demo_$N* $SRC/run_$N.sh; do [ -e "$f" ] && cp -r "$f" $DST/ ; done
+find $DST -name target -type d -prune -exec rm -rf {} +
 python3 - "$SRC/meta.json" "$N" "$DST/meta.json" "$DET" <<'PY'
 import json,sys
 src,n,dst,det=sys.argv[1:5]
